@@ -201,7 +201,7 @@ def run_unit(unit, rec):
         rec.trans()
         try:
             Xm, Bm, Vm = lsq_linear_minimize(A, P_all, Epsilon=None, lb=B.arr(spec["lb"]), ub=B.arr(spec["ub"]), K=(None if K is None else np.atleast_1d(K)),
-                                             baseline=(None if spec["baseline"] is None else np.atleast_1d(B.arr(spec["baseline"]))), return_pred=True)
+                                             baseline=(None if spec["baseline"] is None else np.atleast_1d(B.arr(spec["baseline"]))), return_pred=True, l2_eps=1e-4)
             Xm, Vm = np.asarray(Xm, dtype=float), np.asarray(Vm, dtype=float)
             expv = Xm ** 2 @ (Abar ** 2).T
             if Vm.shape != expv.shape or np.max(np.abs(Vm - expv)) > 1e-10 * (1 + np.max(np.abs(expv))):
